@@ -8,7 +8,7 @@ use gvharness::*;
 use std::collections::{BTreeMap, BTreeSet};
 
 const MATURITY: u64 = 3;
-const N_INVALID_KINDS: u64 = 22;
+const N_INVALID_KINDS: u64 = 23;
 
 #[derive(Clone, Default)]
 struct AState {
@@ -415,7 +415,15 @@ impl Gen {
 			cb_key = Some(self.kit.outs[*rng.pick(&c)].key_id.clone());
 			label = "duplicate-unspent-coinbase";
 		}
-		let mut b = self.kit.assemble_with_key(parent, diff, &txs, delta, cb_key).ok()?;
+		if kind == 22 {
+			// the subsidy (and the fees) taken by a plain output and a plain kernel of fee 0: the
+			// block balances, every proof and signature is good, but it has no coinbase item at all
+			if rng.chance(1, 2) {
+				txs.clear();
+			}
+			label = "reward-claimed-without-coinbase";
+		}
+		let mut b = self.kit.assemble_full(parent, diff, &txs, delta, cb_key, kind == 22).ok()?;
 		let prev = self.kit.blks[parent].block.header.clone();
 		match kind {
 			6 => {
@@ -712,6 +720,14 @@ fn run_history(out: &mut Out, rng: &mut Rng, work: &str, hist: usize, big: bool)
 					evs.insert(pos, Ev::Hdr(*i));
 				}
 			}
+			// a block whose header is wrong only in what it commits to (its prev_root): the header
+			// is offered first and refused, then the block (odd subjects offer headers as a sync chunk)
+			for i in &invalid {
+				if kit.blks[*i].tags.iter().any(|t| t == "kind:prev-root-wrong") {
+					evs.push(Ev::Hdr(*i));
+					evs.push(Ev::Blk(*i));
+				}
+			}
 			for _ in 0..rng.below(3) {
 				let pos = rng.below(evs.len() as u64 + 1) as usize;
 				evs.insert(pos, if rng.chance(1, 2) { Ev::Reopen } else { Ev::Compact });
@@ -740,7 +756,9 @@ fn run_history(out: &mut Out, rng: &mut Rng, work: &str, hist: usize, big: bool)
 			let before = if is_invalid_ev { Some((subj.obs(kit), subj.roots())) } else { None };
 			match ev {
 				Ev::Blk(i) => {
-					let r = subj.deliver_block(&kit.blks[*i].block);
+					// every other subject receives its blocks the way the wire carries them
+					// (inputs as bare commitments); its twin gets the in-memory form
+					let r = if si % 2 == 1 { subj.deliver_block_wire(&kit.blks[*i].block) } else { subj.deliver_block(&kit.blks[*i].block) };
 					out.line(&format!("chain deliver {} b{}", name, i), &r);
 					if !kit.blks[*i].valid && r.starts_with("ok") {
 						out.raw(&format!(
@@ -750,7 +768,12 @@ fn run_history(out: &mut Out, rng: &mut Rng, work: &str, hist: usize, big: bool)
 					}
 				}
 				Ev::Hdr(i) => {
-					let r = subj.deliver_header(&kit.blks[*i].block.header);
+					// odd subjects take headers the way header sync delivers them (a chunk of one)
+					let r = if si % 2 == 1 {
+						subj.sync_headers(&[kit.blks[*i].block.header.clone()])
+					} else {
+						subj.deliver_header(&kit.blks[*i].block.header)
+					};
 					out.line(&format!("chain hdr {} b{}", name, i), &r);
 				}
 				Ev::Reopen => {
@@ -1172,6 +1195,31 @@ fn run_deep(out: &mut Out, rng: &mut Rng, work: &str) -> BTreeMap<String, u64> {
 			}
 		}
 	}
+	// invalid blocks at height 6 on the main chain's block 5 (a stale fork point, 60 blocks below
+	// the tip, further than the cut-through horizon), each wrong only against the chain STATE at
+	// that point: wrong output root, immature coinbase spend, spend of an output block 5 spent
+	let mut stale_invalid: Vec<usize> = vec![];
+	if trunk.len() > 60 {
+		let cb = |kit: &Kit, b: usize| -> Option<usize> {
+			kit.blks[b].block.outputs().iter().find(|o| o.is_coinbase()).and_then(|o| kit.by_commit.get(&o.commitment()).cloned())
+		};
+		if let Ok(mut b) = kit.assemble(trunk[5], 1, &[], 0) {
+			let mut v = b.header.output_root.to_vec();
+			v[5] ^= 1;
+			b.header.output_root = Hash::from_vec(&v);
+			stale_invalid.push(kit.record(b, trunk[5], vec!["late:InvalidRoot".into(), "kind:state-root-wrong(late)-on-stale-fork".into()], false));
+		}
+		for (src, kind) in [(4usize, "kind:immature-coinbase-on-stale-fork"), (1usize, "kind:double-spend-on-stale-fork")] {
+			if let Some(o) = cb(&kit, trunk[src]) {
+				let v = kit.outs[o].value;
+				if let Ok(tx) = kit.build_tx(&TxSpec { inputs: vec![o], outputs: vec![(v - 2, None)], kernel: KSpec::Plain(2) }) {
+					if let Ok(b) = kit.assemble(trunk[5], 1, &[tx], 0) {
+						stale_invalid.push(kit.record(b, trunk[5], vec![kind.into()], false));
+					}
+				}
+			}
+		}
+	}
 	// a second builder tree for the orphan scenario: a straight chain of MAX_ORPHAN_SIZE + 1 blocks
 	let n_orph = grin_chain::MAX_ORPHAN_SIZE;
 	let mut line = vec![0usize];
@@ -1219,6 +1267,8 @@ fn run_deep(out: &mut Out, rng: &mut Rng, work: &str) -> BTreeMap<String, u64> {
 	// a fourth tree: two same-shaped sibling blocks (one input, one output, one kernel each) that
 	// spend DIFFERENT old coinbases; the second is heavier and wins
 	let mut sib: Vec<usize> = vec![];
+	let mut sib_foreign: Option<usize> = None;
+	let mut sib_more: Vec<usize> = vec![];
 	{
 		let mut cur = 0usize;
 		let mut chain5 = vec![];
@@ -1248,6 +1298,38 @@ fn run_deep(out: &mut Out, rng: &mut Rng, work: &str) -> BTreeMap<String, u64> {
 					sib = chain5.clone();
 					sib.push(a);
 					sib.push(b);
+					// on top of the winner: a block spending the plain output that only the losing
+					// sibling created (it sits where the winner's own plain output now sits)
+					let lost = kit.blks[a].block.outputs().iter().find(|o| !o.is_coinbase()).map(|o| *kit.by_commit.get(&o.commitment()).unwrap());
+					// (three blocks later, so that whatever sits at that position has matured)
+					let mut top = b;
+					for _ in 0..3 {
+						if let Ok(id) = kit.new_block(top, 1, &[]) {
+							sib_more.push(id);
+							top = id;
+						}
+					}
+					if let (Some(x), 3) = (lost, sib_more.len()) {
+						let v = kit.outs[x].value;
+						if let Ok(tx) = kit.build_tx(&TxSpec { inputs: vec![x], outputs: vec![(v - 2, None)], kernel: KSpec::Plain(2) }) {
+							// roots computed on the form the wire carries (what a peer crafting it would do)
+							kit.wire_next = true;
+							if let Ok(mut blk) = kit.assemble(top, 1, &[tx], 0) {
+								// its roots as a node that lived through the reorganisation computes them (the
+								// node building the trees holds this tree as a light fork only); when that node
+								// refuses to, the header keeps the sizes-only fallback
+								let rs = Subject::new(&format!("{}/deep_rootsrc", work), &kit.genesis);
+								for i in sib.iter().chain(sib_more.iter()) {
+									rs.deliver_block(&kit.blks[*i].block);
+								}
+								let mut b2 = blk.clone();
+								if rs.c().set_txhashset_roots(&mut b2).is_ok() {
+									blk = b2;
+								}
+								sib_foreign = Some(kit.record(blk, top, vec!["kind:spend-of-output-from-rewound-sibling".into()], false));
+							}
+						}
+					}
 				}
 				(a, b) => complain(format!("sibling tree: {:?} {:?}", a.err(), b.err())),
 			}
@@ -1275,6 +1357,23 @@ fn run_deep(out: &mut Out, rng: &mut Rng, work: &str) -> BTreeMap<String, u64> {
 	let s0 = Subject::new(&format!("{}/deep_s0", work), &kit.genesis);
 	out.raw("chain new s0");
 	deliver(out, &s0, "s0", &trunk[1..], 11);
+	for i in &stale_invalid {
+		let before = (s0.obs(&kit), s0.roots());
+		let r = s0.deliver_block(&kit.blks[*i].block);
+		out.line(&format!("chain deliver s0 b{}", i), &r);
+		*stats.entry(format!("deep:invalid-on-stale-fork:{}", r)).or_insert(0) += 1;
+		if r.starts_with("ok") {
+			out.raw(&format!("#ORACLE-FAIL C06 an invalid block {} blocks below the head was accepted: b{} tags={:?} {}", trunk.len() - 1 - 6, i, kit.blks[*i].tags, r));
+		}
+		let strip = |s: String| -> String { s.split(' ').filter(|t| !t.starts_with("hhead=")).collect::<Vec<_>>().join(" ") };
+		if (strip(before.0.clone()), before.1.clone()) != (strip(s0.obs(&kit)), s0.roots()) {
+			out.raw(&format!("#ORACLE-FAIL C06 a refused block far below the head changed the chain state: b{}", i));
+		}
+		// nothing of it is remembered: offered again it is refused again, not "already known"
+		let r2 = s0.deliver_block(&kit.blks[*i].block);
+		out.line(&format!("chain deliver s0 b{}", i), &r2);
+		out.line("chain obs s0", &s0.obs(&kit));
+	}
 	deliver(out, &s0, "s0", &fork, 1);
 	let s1 = Subject::new(&format!("{}/deep_s1", work), &kit.genesis);
 	out.raw("chain new s1");
@@ -1403,6 +1502,25 @@ fn run_deep(out: &mut Out, rng: &mut Rng, work: &str) -> BTreeMap<String, u64> {
 		let r = s7.deliver_block(&twin);
 		*stats.entry(format!("deep:refused-block-after-sibling-reorg:{}", r)).or_insert(0) += 1;
 		out.line("chain obs s7", &s7.obs(&kit));
+		if let Some(fid) = sib_foreign {
+			deliver(out, &s7, "s7", &sib_more, 1);
+			// in both input representations (the wire carries bare commitments)
+			for wire in [true, false] {
+				let before = (s7.obs(&kit), s7.roots());
+				let r = if wire { s7.deliver_block_wire(&kit.blks[fid].block) } else { s7.deliver_block(&kit.blks[fid].block) };
+				out.line(&format!("chain deliver s7 b{}", fid), &r);
+				*stats.entry(format!("deep:spend-of-rewound-sibling-output:{}", r)).or_insert(0) += 1;
+				if r.starts_with("ok") {
+					out.raw(&format!("#ORACLE-FAIL C02 a block spending an output that exists only on the rewound sibling was accepted (wire form: {}): b{} {}", wire, fid, r));
+				}
+				// (the header head may move: the block's header is itself valid)
+				let strip = |s: String| -> String { s.split(' ').filter(|t| !t.starts_with("hhead=")).collect::<Vec<_>>().join(" ") };
+				if (strip(before.0.clone()), before.1.clone()) != (strip(s7.obs(&kit)), s7.roots()) {
+					out.raw(&format!("#ORACLE-FAIL C06 a refused spend of a rewound sibling's output changed the chain state: before=[{}] after=[{}]", before.0, s7.obs(&kit)));
+				}
+				out.line("chain obs s7", &s7.obs(&kit));
+			}
+		}
 		let v = match s7.c().validate(false) {
 			Ok(_) => "ok".to_string(),
 			Err(e) => format!("err:{}", error_class(&e)),
